@@ -203,6 +203,48 @@ def cached_gate_loops(ctx):
                 ctx.case({"cached-gate-loop": N, "exit": exit_kind, "body_cached": body_cached}, True)
 
 
+def mirrored_cached_gates(ctx):
+    """Two cached if/else gates around ONE predicate with mirrored branches (when_true / when_false swapped), run one
+    after the other on one cache with equal inputs: each gate's decision is its own - the branch that its predicate
+    result names runs, the other one does not."""
+    import asyncio
+
+    from hypergraph import AsyncRunner, FunctionNode, Graph, IfElseNode, InMemoryCache, SyncRunner
+
+    ran = []
+
+    def pred(n):
+        return n > 10
+
+    def mk(name):
+        def f(n):
+            ran.append(name)
+            return (name, n)
+
+        f.__name__ = name
+        return FunctionNode(f, name=name, output_name=name + "_out")
+
+    for runner_kind in ("sync", "async"):
+        for first in (0, 1):
+            cache = InMemoryCache()
+            runner = SyncRunner(cache=cache) if runner_kind == "sync" else AsyncRunner(cache=cache)
+            graphs = [
+                Graph([IfElseNode(pred, when_true="big", when_false="small", cache=True, default_open=False, name="pick"), mk("big"), mk("small")], name="m0"),
+                Graph([IfElseNode(pred, when_true="small", when_false="big", cache=True, default_open=False, name="pick"), mk("big"), mk("small")], name="m1"),
+            ]
+            order = [first, 1 - first, first, 1 - first]
+            for step, gi in enumerate(order):
+                for n in (50, 5):
+                    del ran[:]
+                    r = runner.run(graphs[gi], {"n": n}) if runner_kind == "sync" else asyncio.run(runner.run(graphs[gi], {"n": n}))
+                    ctx.obs["mirrored_cached_gate_runs"] += 1
+                    want = ("big" if n > 10 else "small") if gi == 0 else ("small" if n > 10 else "big")
+                    if ran != [want] or set(r.values) != {want + "_out"}:
+                        ctx.violation("C03:cached-gate-run-differs", f"{runner_kind}: mirrored cached if/else gates on one cache, step {step} (graph m{gi}, n={n}): executed {ran}, values {sorted(r.values)}; the gate's own decision names {want!r}", {"program": "mirrored cached if/else gates", "order": order, "runner": runner_kind})
+                        break
+    ctx.case({"directed": "mirrored-cached-gates"}, True)
+
+
 def run(ctx):
     n = 60 if ctx.tier == "quick" else 1300
     if ctx.replay:
@@ -213,6 +255,7 @@ def run(ctx):
         return
     if ctx.shard[0] == 0:
         cached_gate_loops(ctx)
+        mirrored_cached_gates(ctx)
     # directed part: every loop template (gates with and without wait_for, exits, nested, two-signal gates ...)
     sysn = 0
     for N in (1, 3) if ctx.tier == "quick" else (0, 1, 2, 3, 5):
